@@ -90,6 +90,15 @@ def generate(R, tier):
                "lines": ["[tcp:request]", "label = s:unix:X:y", "sig = *:64:0:*:1,0:::0", "[tcp:response]", "label = s:unix:X:y", "sig = *:64:0:*:1,0:::0"],
                "secs": {"request": [{"line": 3, "generic": False, "userapp": False, "sig": {"ver": -1, "ttl": 64, "bad_ttl": False, "dist": 0, "olen": 0, "mss": -1, "wtype": 0, "wsize": 1, "wscale": 0, "layout": [], "eol": 0, "pay": 0, "quirks": 0}}],
                         "response": [{"line": 6, "generic": False, "userapp": False, "sig": {"ver": -1, "ttl": 64, "bad_ttl": False, "dist": 0, "olen": 0, "mss": -1, "wtype": 0, "wsize": 1, "wscale": 0, "layout": [], "eol": 0, "pay": 0, "quirks": 0}}]}}
+    # a database that holds NO record for the packet's direction (loaded, but empty): the answer is "no match", whatever the
+    # process-wide default database holds -- the packets are ones the shipped p0f.fp would label
+    linux_syn = {"v": 4, "ttl": 64, "id": 4660, "df": True, "flags": 2, "win": 29200, "opts": W.o_mss(1460) + W.o_sok() + W.o_ts(1234, 0) + "01" + W.o_ws(7)}
+    linux_synack = dict(linux_syn, flags=0x12, ack=7, win=28960, opts=W.o_mss(1460) + W.o_sok() + W.o_ts(99, 1234) + "01" + W.o_ws(7))
+    for spec in (linux_syn, linux_synack, dict(linux_syn, ttl=57), dict(linux_syn, v=6, fl=0)):
+        for lines in (["[tcp:request]", "[tcp:response]"], ["[tcp:request]", "label = s:unix:Linux:3.11 and newer", "[tcp:response]", "label = s:unix:Linux:3.x"],
+                      ["; nothing", "[mtu]", "[tcp:response]", "[tcp:request]", "[http:request]"]):
+            for md in (35, 0, 60):
+                yield {"stream": "empty-database", "md": md, "syn_mss": 0, "spec": spec, "lines": lines, "secs": {"request": [], "response": []}}
     for _ in range(n):
         md = G.rand_md(R)
         spec, p, ty = G.rand_wire_pkt(R)
@@ -107,6 +116,31 @@ def generate(R, tier):
         elif r < 0.07 and spec["v"] == 4:
             spec["frag"] = 5
         yield {"stream": "db", "md": md, "syn_mss": syn_mss, "spec": spec, "lines": lines, "secs": secs}
+
+
+def single_record_cases(R, count, stream="api"):
+    """fingerprint_tcp on real bytes against a one-record database: the record matches the packet by construction, then gets
+    0-2 edits; every SYN / SYN+ACK flag combination (ECE, CWR, PSH, URG, NS set or not), framing and option layout of the wire generator."""
+    made = 0
+    while made < count:
+        md = G.rand_md(R)
+        spec, p, ty = G.rand_wire_pkt(R)
+        if (spec["flags"] & 0x17) not in (2, 0x12):
+            continue
+        spec["mf"], spec["frag"] = False, 0
+        syn_mss = R.choice([0, 0, 1460, 536]) if ty == 0x12 else 0
+        p["syn_mss"] = syn_mss
+        p["win"] = spec["win"] = G.aim_window(R, p)
+        sg = G.matching_sig(R, p, md)
+        for _ in range(R.choice([0, 0, 1, 1, 2])):
+            sg = G.edit_sig(R, sg, p, md)
+        G.legal_quirks(sg)
+        sg["dist"] = 0
+        sec = "request" if ty == 2 else "response"
+        lines = ["[tcp:%s]" % sec, "label = s:unix:X:y", "sig = " + G.sig_text(sg)]
+        made += 1
+        yield {"stream": stream, "api": True, "md": md, "syn_mss": syn_mss, "spec": spec, "lines": lines, "pkt": p,
+               "secs": {sec: [{"line": 3, "generic": False, "userapp": False, "sig": sg}]}}
 
 
 def enc_recs(recs):
